@@ -6,7 +6,8 @@ The ideal network (C05Sys), part 1: definitions and list lemmas.
 `idealFrom s n ops` says that the schedule `ops`, run from the system state `s` in which the network
 has already handed over the datagrams `net[0], …, net[n-1]`, is the schedule of a FIFO, lossless,
 duplication-free network: its `deliver` steps are `deliver n, deliver (n+1), …` in this order, and
-each of them happens when the datagram exists. All other steps are unrestricted.
+each of them happens when the datagram exists. All other steps are unrestricted by `idealFrom`;
+`Props.C05.Ideal` additionally excludes `resync` steps (`noResyncB`).
 -/
 
 namespace Uflow.Sys
@@ -64,6 +65,14 @@ theorem idealFrom_cons_other (s : Sys) (n : Nat) (op : SOp) (rest : List SOp)
   | emit f => rfl
   | recv => rfl
   | ack k => rfl
+  | sync => rfl
+  | resync k => rfl
+
+/-- Boolean form of "no `resync` step" (`Sys.NoResync`, `SysThm.lean`). -/
+def noResyncB (ops : List SOp) : Bool :=
+  ops.all fun op => match op with
+    | .resync _ => false
+    | _ => true
 
 /-! ### the network as a function of the emitted packets -/
 
